@@ -96,6 +96,12 @@ type TermStore struct {
 	axioms map[int]*Term // term id -> fact that must accompany the term in every solver scope using it
 	canon  map[int]bool  // 256-bit terms known to be canonical field elements (< P) on every path that uses them
 	modadd map[int][2]*Term // result of a field addition (x+y mod P, x,y canonical) -> its operands
+
+	// ideal-hash mode (vx.CollisionFree on the current path): equalities between applications of
+	// recorded hash symbols are decided structurally - exactly the assumed axioms, applied as rewrites
+	idealHash bool
+	hashSyms  map[string]bool
+	nodeSep   bool // vx.NodeHashesSeparated: two different ped/pos2 outputs are more than 251 apart (mod P)
 }
 
 func NewTermStore() *TermStore {
@@ -692,6 +698,39 @@ func (s *TermStore) Eq(a, b *Term) *Term {
 		}
 		return s.Bool(a.big.Cmp(b.big) == 0)
 	}
+	if s.idealHash && a.op == OpApp && b.op == OpApp && s.hashSyms[a.name] && s.hashSyms[b.name] {
+		if a.name == b.name && len(a.args) == len(b.args) {
+			// collision freedom (and congruence): equal outputs <=> equal inputs
+			r := s.True
+			for i := range a.args {
+				if a.args[i].w != b.args[i].w {
+					r = nil
+					break
+				}
+				r = s.BAnd(r, s.Eq(a.args[i], b.args[i]))
+			}
+			if r != nil {
+				return r
+			}
+		} else if a.name != b.name && hashFamily(a.name) == hashFamily(b.name) {
+			// the same hash function over inputs of different lengths never collides
+			return s.False
+		}
+	}
+	if s.idealHash && ((a.op == OpApp && s.hashSyms[a.name] && b.IsConst() && b.Big().Sign() == 0) ||
+		(b.op == OpApp && s.hashSyms[b.name] && a.IsConst() && a.Big().Sign() == 0)) {
+		return s.False // an ideal hash never outputs zero
+	}
+	if s.nodeSep && a.w == 256 {
+		// node hashes are h or h+len (len a constant in 1..251) with h a ped/pos2 output; under the
+		// separation assumption h1+c1 == h2+c2 (mod P) with c1 != c2 is impossible (equal h: the sums
+		// differ; different h: more than 251 apart)
+		ha, ca, oka := s.nodeHashParts(a)
+		hb, cb, okb := s.nodeHashParts(b)
+		if oka && okb && ha.name == hb.name && ca != cb {
+			return s.False
+		}
+	}
 	if a.w == 256 {
 		// x+c == y+c (mod P) <=> x == y for canonical field elements (adding c is a bijection of the field)
 		if ma, ok := s.modadd[a.id]; ok {
@@ -740,6 +779,22 @@ func (s *TermStore) Eq(a, b *Term) *Term {
 		a, b = b, a
 	}
 	return s.mk(&Term{op: OpEq, w: 0, args: []*Term{a, b}})
+}
+
+// nodeHashParts splits a node hash into its ped/pos2 application and the constant length added to it.
+func (s *TermStore) nodeHashParts(t *Term) (*Term, uint64, bool) {
+	isH := func(x *Term) bool { return x.op == OpApp && (x.name == "ped" || x.name == "pos2") && s.hashSyms[x.name] }
+	if isH(t) {
+		return t, 0, true
+	}
+	if m, ok := s.modadd[t.id]; ok {
+		for i := 0; i < 2; i++ {
+			if isH(m[i]) && m[1-i].IsConst() && m[1-i].Big().IsUint64() && m[1-i].Big().Uint64() <= 251 {
+				return m[i], m[1-i].Big().Uint64(), true
+			}
+		}
+	}
+	return nil, 0, false
 }
 
 func (s *TermStore) Cmp(op Op, a, b *Term) *Term {
